@@ -7,7 +7,7 @@ from hypothesis import strategies as st
 from pbt import strategies as S
 from pbt.common import Stats, Sub, Violation
 from pbt.model import Model, uri_prefixes_of
-from pbt.sut import Converter, mk_incremental_queried, mk_record, mk_records
+from pbt.sut import Converter, mk_incremental_queried, mk_record, mk_records, mk_split_merge
 
 PROPERTY_ID = "C01"
 RULE = (
@@ -69,6 +69,16 @@ def _variants(case):
             c.is_uri(u)
 
     out["incremental-with-interleaved-queries"] = mk_incremental_queried(spec, case["perm1"], queries)
+    out["split-and-merged"] = mk_split_merge(spec)
+    # the same URI-prefix -> canonical-prefix assignment supplied through loaders, in two entry orders (URI parsing only
+    # depends on which record owns a URI prefix and on that record's canonical CURIE prefix)
+    pairs = [(u, r["prefix"]) for r in recs for u in [r["uri_prefix"], *r["uri_prefix_synonyms"]]]
+    if len({p for _, p in pairs}) == len(recs):
+        shuffled = [pairs[i] for i in sorted(range(len(pairs)), key=lambda i: (case["perm1"].index(i % len(recs)) if recs else 0, -i))]
+        out["from_reverse_prefix_map"] = Converter.from_reverse_prefix_map(dict(pairs), delimiter=d)
+        out["from_reverse_prefix_map(longest first)"] = Converter.from_reverse_prefix_map(dict(sorted(pairs, key=lambda t: -len(t[0]))), delimiter=d)
+        out["from_reverse_prefix_map(permuted)"] = Converter.from_reverse_prefix_map(dict(shuffled), delimiter=d)
+        out["from_priority_prefix_map"] = Converter.from_priority_prefix_map({recs[i]["prefix"]: [recs[i]["uri_prefix"], *recs[i]["uri_prefix_synonyms"]] for i in case["perm2"]}, delimiter=d)
     return out
 
 
